@@ -9,6 +9,8 @@ environment:
   VFAULT_KIND  = crash  : os._exit(77) BEFORE performing the call (interruption point)
                | fail   : the call fails the way the real component fails: black raises / format-command exits non-zero,
                           open / rename / read raise OSError, write raises OSError after the file was opened for writing
+               | failall : like fail, and every LATER write() fails as well (a persistent condition such as a full disk or an exceeded
+                          quota: whatever the code tries as a fallback meets the same failure)
                | garble : (format-command only) THIS call of the formatter exits with status 0 but prints something else than the
                           formatted code: VFAULT_GARBLE = syntax (unparsable text) | empty (nothing) | other (valid Python,
                           another program); at a boundary that is no formatter call nothing happens
@@ -45,6 +47,11 @@ def boundary(step, what):
         return False
     counted = PHASE == "all" or PHASE == _S["phase"]
     idx = _S["count"] if counted else None
+    if KIND == "failall" and _S["fired"] and step == "write":
+        if counted:
+            _S["count"] += 1
+        _log(step + "!again", what)
+        return True
     if counted:
         _S["count"] += 1
     if AT is not None and idx == AT and not _S["fired"]:
